@@ -404,8 +404,9 @@ class LSMTree(Entity):
 
         # Check each level, L0 first (most recent)
         for level in self._levels:
-            # L0: check all SSTables (may have overlapping key ranges)
-            for sstable in reversed(level):
+            # L0: check all SSTables (may have overlapping key ranges).
+            # Iterate a copy: a compaction may shrink the level while we yield.
+            for sstable in list(reversed(level)):
                 self._total_sstables_checked += 1
 
                 if not sstable.contains(key):
@@ -493,7 +494,8 @@ class LSMTree(Entity):
 
         # Collect from SSTables (newer levels first)
         for level in self._levels:
-            for sstable in reversed(level):
+            # Iterate a copy: a compaction may shrink the level while we yield.
+            for sstable in list(reversed(level)):
                 page_reads = sstable.page_reads_for_scan(start_key, end_key)
                 if page_reads > 0:
                     yield page_reads * self._sstable_read_latency
